@@ -325,6 +325,7 @@ class Parser:
 
         # Push to current scope
         self.current_scope().push_member(child, name)
+        self.copy_p_tracking(p)  # from 1 (the keyword `import`) => 0
 
     @override_docstring(r_option)
     def p_option(self, p: P) -> None:
@@ -625,7 +626,10 @@ class Parser:
         if isinstance(p[1], Constant):
             raise ConstInEnumUnsupported.from_token(token=p[1])
         if isinstance(p[1], Proto):
-            raise ImportInEnumUnsupported.from_token(token=p[1])
+            # The token p[1] is the imported proto, report the importing statement.
+            raise ImportInEnumUnsupported(
+                filepath=self.current_filepath(), token="import", lineno=p.lineno(1)
+            )
         if isinstance(p[1], Option):
             raise OptionInEnumUnsupported.from_token(token=p[1])
         if isinstance(p[1], Enum):
@@ -706,7 +710,10 @@ class Parser:
         if isinstance(p[1], Constant):
             raise ConstInMessageUnsupported.from_token(token=p[1])
         if isinstance(p[1], Proto):
-            raise ImportInMessageUnsupported.from_token(token=p[0])
+            # The token p[1] is the imported proto, report the importing statement.
+            raise ImportInMessageUnsupported(
+                filepath=self.current_filepath(), token="import", lineno=p.lineno(1)
+            )
         raise StatementInMessageUnsupported(
             lineno=p.lineno(1), filepath=self.current_filepath()
         )
